@@ -648,6 +648,18 @@ func (s *syncer) loadBisyncMigrationSeed(cli client.Redis, checkpointName string
 		if err != nil {
 			return nil, err
 		}
+		// As in bisyncStartPoint: a root checkpoint that a later full sync moved forward makes the
+		// recovery state of the time before it obsolete (the unit numbering starts at 1 again behind
+		// it). A stale snapshot or journal record must not become the seed of the new namespace, or
+		// the link resumes before the position it held in the old mode.
+		root, _, err := checkpoint.GetCheckpoint(cli, checkpointName, ids)
+		if err != nil {
+			return nil, err
+		}
+		rootOwnsRunID := root != nil && root.RunId != "?" && checkpoint.MatchBisyncRunID(root.RunId, ids)
+		if rootOwnsRunID && snapshot != nil && snapshot.Offset < root.Offset {
+			snapshot = nil
+		}
 		minSeq := int64(1)
 		if snapshot != nil && snapshot.UnitSeq > 0 {
 			minSeq = snapshot.UnitSeq + 1
@@ -655,6 +667,15 @@ func (s *syncer) loadBisyncMigrationSeed(cli client.Redis, checkpointName string
 		records, err := checkpoint.LoadBisyncCommitRecords(cli, checkpointName, recoverySlots, ids, minSeq)
 		if err != nil {
 			return nil, err
+		}
+		if rootOwnsRunID {
+			current := records[:0:0]
+			for _, record := range records {
+				if record != nil && record.EndOffset > root.Offset {
+					current = append(current, record)
+				}
+			}
+			records = current
 		}
 		frontier, err := checkpoint.RebuildBisyncFrontier(snapshot, records)
 		if err != nil {
